@@ -3,6 +3,10 @@ package h
 import (
 	"fmt"
 	"strings"
+	"testing"
+	"time"
+
+	"pgregory.net/rapid"
 )
 
 // C02 — no falsification is lost: every failure signal fails the enclosing test.
@@ -197,13 +201,62 @@ func scenarioC02(rc *RunCtx) {
 			rc.Inc("probe.fail_file_present_for_phase2")
 		}
 	}
+	cellName := fmt.Sprintf("%v/%s/%s", cell.kind, c02Contexts[cell.ctx], c02Positions[cell.pos])
+	if (cell.pos == 0 || cell.pos == 3) && t.Chance("c02.via_makefuzz", 12) {
+		scenarioC02Fuzz(rc, p, fl, cellName)
+		return
+	}
 	cr := RunCheck(p, RunOpt{Name: name, Dir: dir, Flags: fl, Clock: cc.Resolve(0), WithCtx: t.Chance("tb.ctx", 15)})
 	rc.Note(cr)
-	cellName := fmt.Sprintf("%v/%s/%s", cell.kind, c02Contexts[cell.ctx], c02Positions[cell.pos])
 	rc.Sample = fmt.Sprintf("cell=%s k=%d %v verdict=%s\n%s", cellName, k, fl, cr.Verdict, p)
 	rc.Tracef("cell %s k=%d", cellName, k)
 	rc.Key = MixSeed(HashString(cellName), uint64(k), fl.Seed, uint64(fl.Checks))
 	judgeC02(rc, cr, cellName)
+}
+
+// scenarioC02Fuzz: the cell's program as a fuzz target (MakeFuzz on a real sub-test, arbitrary bytes as the bitstream):
+// a failure signalled by the one test case that is executed fails the enclosing test - also when it would not be
+// signalled a second time (position "first-case").
+func scenarioC02Fuzz(rc *RunCtx, p *Prog, fl Flags, cellName string) {
+	t := rc.T
+	r := NewRNG(t.Draw("c02.fz.sub", 1<<30))
+	data := make([]byte, 800)
+	for i := range data {
+		data[i] = byte(r.Next())
+		if i%8 >= 2 {
+			data[i] = 0 // small 64-bit words decode into sensible lengths and choices
+		}
+	}
+	fl.Apply()
+	w := NewWorld("fuzz", ClockPolicy{Kind: ClkFrozen}, false)
+	w.initChans()
+	in := NewInterp(w, p)
+	cr := &CheckRun{W: w, In: in, Prog: p, Name: "fuzz"}
+	failed, skipped := false, false
+	curT.Run("c02fuzz", func(ft *testing.T) {
+		defer func() { failed, skipped = ft.Failed(), ft.Skipped() }()
+		rapid.MakeFuzz(in.Prop)(ft, data)
+	})
+	cr.finishWaiters(func() { time.Sleep(2 * time.Millisecond) })
+	rc.Inc("leg.makefuzz")
+	rc.Inc("checks_run")
+	rc.Add("invocations", len(w.Invs))
+	rc.Sample = fmt.Sprintf("cell=%s via MakeFuzz: %d invocations failed=%v skipped=%v\n%s", cellName, len(w.Invs), failed, skipped, p)
+	rc.Key = MixSeed(HashString(cellName), HashString("fuzz"), HashString(string(data[:64])))
+	rc.MixHash(uint64(len(w.Invs)))
+	signalled := false
+	for _, inv := range w.Invs {
+		if inv.Signalled() {
+			signalled = true
+		}
+	}
+	rc.Nontriv = signalled
+	if signalled && !failed {
+		rc.V(viol("C02.fuzz", "signal-lost", "a fuzz input executed through MakeFuzz signalled %s, but the enclosing test is not failed (skipped=%v, %d executions)", cellName, skipped, len(w.Invs)))
+	}
+	if signalled {
+		rc.Inc("probe.fuzz_target_signalled")
+	}
 }
 
 func judgeC02(rc *RunCtx, cr *CheckRun, cellName string) {
